@@ -78,7 +78,12 @@ func (c *client) Broadcast(ctx context.Context, msgID string, msg proto.Message)
 	for i, pID := range c.peers {
 		if c.p2pNode.ID() == pID {
 			// Sign self locally.
-			sig, err := c.signFunc(msgID, hash)
+			signHash, err := senderHash(pID, hash)
+			if err != nil {
+				return errors.Wrap(err, "sender hash")
+			}
+
+			sig, err := c.signFunc(msgID, signHash)
 			if err != nil {
 				return errors.Wrap(err, "sign hash")
 			}
@@ -116,7 +121,7 @@ func (c *client) Broadcast(ctx context.Context, msgID string, msg proto.Message)
 
 	// Verify
 
-	if err := c.verifyFunc(msgID, anyMsg, sigs); err != nil {
+	if err := c.verifyFunc(c.p2pNode.ID(), msgID, anyMsg, sigs); err != nil {
 		return errors.Wrap(err, "verify signatures")
 	}
 
